@@ -257,6 +257,12 @@ func run(c *eng.Ctx) {
 			nt := runWorkerCycles(c, idx)
 			c.R.End(idx, eng.Hash("c14-worker"), nt)
 		}
+		if idx := len(list) + 400; c.Mine(idx) {
+			settle(procBase)
+			c.R.Begin(idx)
+			nt := runUowCycles(c, idx)
+			c.R.End(idx, eng.Hash("c14-uow"), nt)
+		}
 	}()
 	for idx, sp := range list {
 		if !c.Mine(idx) {
